@@ -111,15 +111,17 @@ Section Core.
 End Core.
 Arguments dist {Q}. Arguments pred {Q}. Arguments vis {Q}. Arguments que {Q}. Arguments mkst {Q}.
 
-(* back-tracking of shortest_path:   v = t; while v != start: l.append(v); v = path[v];  l.append(start); reverse
-   (`acc` is the reversed list; path[v] = None leads to path[None] -> KeyError on the next turn) *)
+(* back-tracking of shortest_path:
+     v = t; while v != start and v is not None: l.append(v); v = path[v]
+     if v is None: l = []  (t is not connected to start)   else: l.append(start); reverse
+   (`acc` is the reversed list; a target that is not a vertex id raises KeyError at path[t]: see shortest_path) *)
 Fixpoint back (fuel : nat) (pr : zmap Z) (start v : Z) (acc : list Z) : res (list Z) :=
   match fuel with
   | O => OutOfFuel
   | S f =>
       if Z.eqb v start then Ok (start :: acc)
       else match zget pr v with
-           | None => KeyError
+           | None => Ok []
            | Some u => back f pr start u (v :: acc)
            end
   end.
@@ -229,6 +231,10 @@ Inductive wspec :=
 
 Definition is_vertex (m : mesh) (v : Z) : bool := (0 <=? v) && (v <? nvert m).
 
+Inductive tkind := TPy | TNp.            (* how a single target is given: int / numpy integer (np.int64) *)
+Definition single_accepts (k : tkind) : bool :=
+  match k with TPy => single_accepts_pyint | TNp => single_accepts_npint end.
+
 (* mesh.connectivity.edge_id(a, b): position of the edge {a,b} in mesh.edges (dict built in edge order, so the
    last occurrence wins), None if absent *)
 Definition same_edge (e : Z * Z) (a b : Z) : bool :=
@@ -294,7 +300,14 @@ Section WithQueue.
   (* shortest_path(mesh, start, targets, weights): dict target -> path, as an association list *)
   Definition shortest_path (m : mesh) (ws : wspec) (start : Z) (targets : list Z) : res (list (Z * list Z)) :=
     rbind (sp_run m ws start) (fun st =>
-      rmap (fun t => rbind (back (S (Z.to_nat (nvert m))) (pred st) start t []) (fun p => Ok (t, p))) (dedup targets)).
+      rmap (fun t => if is_vertex m t                                  (* path[t] on a non-vertex: KeyError *)
+                     then rbind (back (S (Z.to_nat (nvert m))) (pred st) start t []) (fun p => Ok (t, p))
+                     else KeyError) (dedup targets)).
+
+  (* a target given singly, as a Python int or as a numpy integer: `isinstance(targets, ...)` decides whether it is
+     wrapped into a set; otherwise `set(targets)` raises TypeError (not iterable) *)
+  Definition shortest_path1 (m : mesh) (ws : wspec) (start : Z) (k : tkind) (t : Z) : res (list (Z * list Z)) :=
+    if single_accepts k then shortest_path m ws start [t] else TypeError.
 
   (* ---- shortest_path_to_vertex_set: the graph `connectivity` (dict of dicts built from mesh.edges, plus the
      sink joined to every target) described by its contents: keys of connectivity[v] and the value stored *)
@@ -315,7 +328,8 @@ Section WithQueue.
     if Z.eqb a sentinel || Z.eqb b sentinel then sink_weight else set_base_weight m ws a b.
 
   Definition set_run (m : mesh) (ws : wspec) (start : Z) (targets : list Z) : res (state Q) :=
-    if negb (is_vertex m start) then KeyError
+    (* the sink -1 is a key of every dict of this function: a start equal to it is not rejected *)
+    if negb (is_vertex m start || Z.eqb start sentinel) then KeyError
     else if negb (forallb (is_vertex m) targets) then KeyError     (* connectivity[s][TARGET] = 0 *)
     else dijkstra Q qpush qpop (set_nbrs m targets) (set_weight m ws) relax_set
            (fuel_of (set_nbrs m targets) (sentinel :: zrange (nvert m))) qempty start.
@@ -396,7 +410,8 @@ Definition mesh_ok (m : mesh) (ws : wspec) : bool := edges_ok m && adj_ok m && w
 
 (* ------------------------------------------------------------------ correspondence: one query and what was observed *)
 Inductive query :=
-| QPath (start : Z) (targets : list Z)          (* shortest_path(mesh, start, targets) *)
+| QPath (start : Z) (targets : list Z)          (* shortest_path(mesh, start, targets), targets a collection *)
+| QPath1 (start : Z) (k : tkind) (t : Z)        (* shortest_path(mesh, start, t), t a single int / np.int64 *)
 | QSet (start : Z) (targets : list Z)           (* shortest_path_to_vertex_set(mesh, start, targets) *)
 | QBorder (start : Z).                          (* shortest_path_to_border(mesh, start) *)
 
@@ -412,6 +427,7 @@ Definition zl_eqb := list_eqb Z.eqb.
 (* The model run with the executed heap; the implementation's answer is accepted when it lies in the set of optimal
    answers: a valid edge path with the right ends whose weight equals the weight of the model's path. *)
 Definition run_sp := shortest_path hq [] hq_push hq_pop.
+Definition run_sp1 := shortest_path1 hq [] hq_push hq_pop.
 Definition run_set := shortest_path_to_vertex_set hq [] hq_push hq_pop.
 Definition run_border := shortest_path_to_border hq [] hq_push hq_pop.
 (* ... and with the list queue the contract is proved for (cross-check: same optimal weights) *)
@@ -427,10 +443,13 @@ Definition lookup (l : list (Z * list Z)) (t : Z) : option (list Z) :=
 Definition agree_paths (m : mesh) (ws : wspec) (s : Z) (model impl : list (Z * list Z)) : bool :=
   same_keys model impl &&
   forallb (fun tp =>
-    match lookup model (fst tp) with
-    | Some pm => valid_path m s (fst tp) (snd tp) && valid_path m s (fst tp) pm
-                 && wsame ws (path_weight (mweight m ws) (snd tp)) (path_weight (mweight m ws) pm)
-    | None => false
+    match lookup model (fst tp), snd tp with
+    | Some [], [] => true                             (* both say: not connected to the start *)
+    | Some [], _ :: _ => false
+    | Some (_ :: _), [] => false
+    | Some pm, pi => valid_path m s (fst tp) pi && valid_path m s (fst tp) pm
+                     && wsame ws (path_weight (mweight m ws) pi) (path_weight (mweight m ws) pm)
+    | None, _ => false
     end) impl.
 
 (* nearest-member relation for the set query: ind is a target, p a valid path start -> ind, same weight as the model's *)
@@ -449,10 +468,19 @@ Definition check_query (m : mesh) (ws : wspec) (q : query) (o : obs) : bool :=
       | KeyError, OKeyError => true
       | _, _ => false
       end
+  | QPath1 s k t =>
+      match run_sp1 m ws s k t, o with
+      | Ok l, OPaths l' => agree_paths m ws s l l'
+      | TypeError, OTypeError => true
+      | KeyError, OKeyError => true
+      | _, _ => false
+      end
   | QSet s ts =>
       match run_set m ws s ts, o with
       | Ok r, OSet i p =>
-          agree_set m ws s ts r (i, p) && match run_set_l m ws s ts with Ok r2 => agree_set m ws s ts r2 (i, p) | _ => false end
+          (* identical answers agree (this covers the degenerate start = sink id, answered (start, [])) *)
+          (Z.eqb (fst r) i && zl_eqb (snd r) p) ||
+          (agree_set m ws s ts r (i, p) && match run_set_l m ws s ts with Ok r2 => agree_set m ws s ts r2 (i, p) | _ => false end)
       | TypeError, OTypeError => true
       | KeyError, OKeyError => true
       | NoTarget, ONoTarget => true
